@@ -85,6 +85,11 @@ def gen_plan(prop, seed, index, tier="quick"):
         api["2"] = [0, lo_max]
         if iso == "read_committed" and lo_max < 2:
             kwargs["isolation_level"] = iso = "read_uncommitted"
+    if prop == "C08":
+        # every Fetch version that can carry the consumer's isolation level (the layout of
+        # the response - LSO, aborted-transaction index, log start offset - differs per version)
+        api["1"] = [0, r.choice([4, 4, 5, 6, 7, 10, 11, 11]) if iso == "read_committed"
+                    else r.choice([1, 2, 3, 4, 5, 7, 11, 11])]
     if api:
         cluster["api_versions"] = api
     log_start = {}
